@@ -37,6 +37,13 @@ class SchedAbort(BaseException):
     pass
 
 
+def is_stutter(label):
+    """points the Lean machine does not know: in the unchanged code the thread does nothing there
+    that another thread of the cache could observe (lock release, no-op first step after a wrong
+    first-label guess, file-system probes / directory creation of a worker, lock-registry access)"""
+    return label in ("unlock", "start", "reg") or str(label).startswith("fs:")
+
+
 class _Sem:
     """binary semaphore on a raw lock (C-level acquire with timeout; much faster than
     threading.Semaphore); at most one release is ever outstanding"""
@@ -131,6 +138,11 @@ class Sched:
             sk, t.skip = t.skip, None
             if sk == label:
                 return
+            # the first instrumented call is not the one guessed when the thread was parked: the
+            # step already granted under the guessed label did nothing -> it was a `start` step
+            fs = getattr(t, "first_step", None)
+            if fs is not None and 0 <= fs < len(self.trace) and self.trace[fs]["tid"] == t.tid:
+                self.trace[fs]["label"] = "start"
         self._block(t, label, enabled)
 
     def first_point(self, label, enabled=None):
@@ -138,6 +150,7 @@ class Sched:
         t = self.me()
         self._block(t, label, enabled)
         t.skip = label
+        t.first_step = self.step
 
     def _block(self, t, label, enabled):
         t.label, t.enabled = label, enabled
@@ -241,7 +254,7 @@ class Sched:
             t = self.threads[tid]
             self.trace.append(dict(tid=tid, label=t.label, enabled=list(en), prev=prev,
                                    parked=[x.tid for x in self.threads.values()
-                                           if x.state == "blocked" and x.label == "unlock"]))
+                                           if x.state == "blocked" and is_stutter(x.label)]))
             self.step = len(self.trace) - 1
             t.sem.release()
             if not self.ctl.acquire(timeout=HARD_TIMEOUT):
@@ -343,6 +356,14 @@ class FakeLock:
 
     def acquire(self, blocking=True, timeout=-1):
         self.sched.point(self.label, enabled=lambda: not self.held)
+        while self.held and self.sched.me() is not None and not self.sched.abort:
+            # granted through a first-label guess that carried no enabledness test: wait properly
+            t = self.sched.me()
+            fs = getattr(t, "first_step", None)
+            if fs is not None and 0 <= fs < len(self.sched.trace) and self.sched.trace[fs]["tid"] == t.tid \
+                    and self.sched.step == fs:
+                self.sched.trace[fs]["label"] = "start"
+            self.sched.point(self.label, enabled=lambda: not self.held)
         if self.held:               # only reachable from an unmanaged thread
             raise RuntimeError("FakeLock contended outside the scheduler")
         self.held = True
@@ -431,16 +452,26 @@ def make_open(sched, real_open):
 
 
 class _PathProxy:
+    """os.path of klongpy.db.file_cache.  exists/getsize of a client thread are the two stat
+    points of get_file.  Every other probe (and a worker's exists) is a scheduling point `fs:<call>`
+    exactly when its path does not exist yet: files and directories are never removed by the
+    cache, so a probe of something that exists has a stable answer and commutes with everything,
+    while a probe of something missing races with whoever creates it."""
+
     def __init__(self, sched, real):
         self._s, self._r = sched, real
 
-    # exists/getsize are scheduling points of get_file (client threads) only: a worker that
-    # probes the file system before writing (e.g. to decide which directories to fsync) reads
-    # nothing the cache's behaviour depends on
+    def _probe(self, name, p):
+        t = self._s.me()
+        if t is not None and not self._r.exists(p):
+            self._s.point("fs:" + name)
+
     def exists(self, p):
         t = self._s.me()
         if t is not None and t.kind == "client":
             self._s.point("exists")
+        else:
+            self._probe("exists", p)
         return self._r.exists(p)
 
     def getsize(self, p):
@@ -448,6 +479,18 @@ class _PathProxy:
         if t is not None and t.kind == "client":
             self._s.point("getsize")
         return self._r.getsize(p)
+
+    def isdir(self, p):
+        self._probe("isdir", p)
+        return self._r.isdir(p)
+
+    def isfile(self, p):
+        self._probe("isfile", p)
+        return self._r.isfile(p)
+
+    def lexists(self, p):
+        self._probe("lexists", p)
+        return self._r.lexists(p)
 
     def __getattr__(self, k):
         return getattr(self._r, k)
@@ -467,8 +510,63 @@ class OsProxy:
             self._s.point("fsync")
         return self._r.fsync(fd)
 
+    # directory creation: a point when the directory is missing (see _PathProxy)
+    def makedirs(self, p, *a, **kw):
+        if self._s.me() is not None and not self._r.path.isdir(p):
+            self._s.point("fs:makedirs")
+        return self._r.makedirs(p, *a, **kw)
+
+    def mkdir(self, p, *a, **kw):
+        if self._s.me() is not None and not self._r.path.isdir(p):
+            self._s.point("fs:mkdir")
+        return self._r.mkdir(p, *a, **kw)
+
+    # calls that change what other threads can see of a file are always points
+    def _always(name):
+        def f(self, *a, **kw):
+            self._s.point("fs:" + name)
+            return getattr(self._r, name)(*a, **kw)
+        return f
+
+    rename = _always("rename")
+    replace = _always("replace")
+    remove = _always("remove")
+    unlink = _always("unlink")
+    truncate = _always("truncate")
+    stat = _always("stat")
+    del _always
+
     def __getattr__(self, k):
         return getattr(self._r, k)
+
+
+class RegistryDict(dict):
+    """backing dict of PandasDataFrameCache.append_locks (a WeakValueDictionary): look-ups and
+    stores of the per-file merge-lock registry are scheduling points (`reg`)"""
+
+    def __init__(self, sched):
+        super().__init__()
+        self._s = sched
+
+    def __getitem__(self, k):
+        self._s.point("reg")
+        return dict.__getitem__(self, k)
+
+    def __setitem__(self, k, v):
+        self._s.point("reg")
+        dict.__setitem__(self, k, v)
+
+    def get(self, k, d=None):
+        self._s.point("reg")
+        return dict.get(self, k, d)
+
+    def __contains__(self, k):
+        self._s.point("reg")
+        return dict.__contains__(self, k)
+
+    def setdefault(self, k, d=None):
+        self._s.point("reg")
+        return dict.setdefault(self, k, d)
 
 
 class ThreadingProxy:
